@@ -21,6 +21,14 @@ import (
 // trak / trex boxes are then permuted in the encoded bytes. The result has the same shape as a packager Production
 // (Init, Seg and Objs are nil).
 func RawProduce(r *sim.Run, maxTracks, maxSegs, maxFrags, maxSamples int) (*Production, error) {
+	return RawProduceOpt(r, maxTracks, maxSegs, maxFrags, maxSamples, false, false)
+}
+
+// RawProduceOpt: with styp every segment begins with a styp box written here; with absBase (only meaningful when the
+// caller uses the stream exactly as produced: init followed by the segments) some trafs carry an explicit
+// base_data_offset (an absolute position in that stream, at or a little after the moof), alone or together with
+// default-base-is-moof (8.8.7.1: the explicit offset wins).
+func RawProduceOpt(r *sim.Run, maxTracks, maxSegs, maxFrags, maxSamples int, styp, absBase bool) (*Production, error) {
 	t := r.T
 	rnd := t.Sub()
 	p := &Production{}
@@ -72,9 +80,13 @@ func RawProduce(r *sim.Run, maxTracks, maxSegs, maxFrags, maxSamples int) (*Prod
 	}
 	seq := uint32(1 + t.Draw(5))
 	nSegs := 1 + t.Draw(maxSegs)
+	streamPos := int64(len(p.InitBytes)) // absolute position of the next segment in init + segments
 	for si := 0; si < nSegs; si++ {
-		sr := &SegRec{}
+		sr := &SegRec{HasStyp: styp}
 		var segBytes []byte
+		if styp {
+			segBytes = append(segBytes, RawStyp()...)
+		}
 		for fi := 0; fi < 1+t.Draw(maxFrags); fi++ {
 			fr := FragRec{Seq: seq, From: make([]int, nTracks), To: make([]int, nTracks), Mode: "raw"}
 			for ti := range fr.From {
@@ -101,9 +113,11 @@ func RawProduce(r *sim.Run, maxTracks, maxSegs, maxFrags, maxSamples int) (*Prod
 				off   int // position of the data_offset field inside the moof (patched later)
 			}
 			type trafSpec struct {
-				ti    int
-				truns []*trunSpec
-				raw   []byte
+				ti      int
+				truns   []*trunSpec
+				raw     []byte
+				baseAt  int   // position of the base_data_offset field inside raw (-1: none)
+				baseAdd int64 // base_data_offset = absolute moof position + baseAdd
 			}
 			var trafs []*trafSpec
 			var mdat []byte
@@ -114,7 +128,11 @@ func RawProduce(r *sim.Run, maxTracks, maxSegs, maxFrags, maxSamples int) (*Prod
 				tfDur, tfSize, tfFlags := []uint32{1024, 2000, 1, 0}[t.Draw(4)], []uint32{8, 33, 2}[t.Draw(3)], []uint32{0x01010000, 0x02000000, 0}[t.Draw(3)]
 				flagsFrom := t.Draw(2) + 1 // for mFlags==3: rest of the samples from tfhd (1) or trex (2)
 				hasCto := p.Tracks[ti].Media == "video" && t.Bool()
-				tf := &trafSpec{ti: ti}
+				tf := &trafSpec{ti: ti, baseAt: -1}
+				if absBase && t.Chance(250) {
+					tf.baseAdd = int64([]int{0, 8, 16, 40}[t.Draw(4)])
+					tf.baseAt = 12 + 4 // tfhd header + version/flags, then track_ID
+				}
 				nTruns := 1
 				if t.Chance(250) {
 					nTruns = 2
@@ -207,6 +225,13 @@ func RawProduce(r *sim.Run, maxTracks, maxSegs, maxFrags, maxSamples int) (*Prod
 					tfFlagsWord |= 0x020000
 				}
 				tfPl = be32(uint32(ti + 1))
+				if tf.baseAt >= 0 {
+					tfFlagsWord |= 0x1
+					tfPl = append(tfPl, make([]byte, 8)...) // base_data_offset, patched once the moof position is known
+					if !baseIsMoof && t.Bool() {
+						tfFlagsWord |= 0x020000 // both flags: the explicit offset still wins
+					}
+				}
 				if tfFlagsWord&0x8 != 0 {
 					tfPl = append(tfPl, be32(tfDur)...)
 				}
@@ -264,10 +289,14 @@ func RawProduce(r *sim.Run, maxTracks, maxSegs, maxFrags, maxSamples int) (*Prod
 				moofPl = append(moofPl, box("traf", tf.raw)...)
 			}
 			moof := box("moof", moofPl)
+			moofAbs := streamPos + int64(len(segBytes))
 			dataPos := len(moof) + 8
 			for i, tf := range trafs {
+				if tf.baseAt >= 0 {
+					binary.BigEndian.PutUint64(moof[trafAt[i]+tf.baseAt:], uint64(moofAbs+tf.baseAdd))
+				}
 				for _, tr := range tf.truns {
-					binary.BigEndian.PutUint32(moof[trafAt[i]+tr.off:], uint32(dataPos))
+					binary.BigEndian.PutUint32(moof[trafAt[i]+tr.off:], uint32(int32(int64(dataPos)-tf.baseAdd)))
 					for _, rec := range tr.recs {
 						dataPos += len(rec.Data)
 					}
@@ -282,6 +311,7 @@ func RawProduce(r *sim.Run, maxTracks, maxSegs, maxFrags, maxSamples int) (*Prod
 			sr.Frags = append(sr.Frags, fr)
 		}
 		sr.Bytes = segBytes
+		streamPos += int64(len(segBytes))
 		p.Segs = append(p.Segs, sr)
 	}
 	// self-check against the reference demuxer: the emitted stream must read back as the log
